@@ -8,6 +8,9 @@
 
 mod c01;
 mod c04;
+mod cterm;
+mod wrapstore;
+mod cfault;
 mod cabort;
 mod ccrash;
 mod cmodel;
